@@ -220,6 +220,9 @@ def run(ctx, report):
     if unknowns:
         raise AnalysisError('%d lifter instantiations are outside the modelled subset, e.g. %s' % (len(unknowns), unknowns[:3]))
     # ---------------------------------------------------------------- D5 sub-register rewrite
+    R6 = report.rule('C11.D6', 'a semantic function returns a list built in the call (a shared list, extended by a caller, gives the next lifting a second assignment of the same location; shared with C12.D12)', floor=1)
+    from .c12 import fresh_result_rule
+    fresh_result_rule(ctx, R6)
     R5 = report.rule('C11.D5', 'an assignment to a slice is rewritten into a full-width concatenation that tiles the destination', floor=300)
     from ..consteval import Evaluator, Obj, Native, NotConst
     ex = ctx.mod('expression')
@@ -317,4 +320,5 @@ MUTANTS = [
     ('jmp-short-8bit', 'miasmx/arch/ia32_sem.py', "    if isinstance(a, ExprInt) and a.get_size() == 8:\n        # short jump", "    if False:\n        # short jump", 'C11.D3'),
     ('movzx-r16-empty-slot', 'miasmx/arch/ia32_sem.py', "    if b.get_size() == a.get_size():\n        # (66 0F B7 /r: both operands are words)\n        return [ExprAff(a, b)]\n", "", 'C11.D3'),
     ('sidt-const32', 'miasmx/arch/ia32_sem.py', "ExprInt16(0x8245)))", "ExprInt32(0x8245)))", 'C11.D3'),
+    ('into-shared-empty-list', 'miasmx/arch/ia32_sem.py', "def into(info):\n    return []\n", "no_effect = []\ndef into(info):\n    return no_effect\n", 'C11.D6'),
 ]
